@@ -65,6 +65,8 @@ structure Conn where
   gReceived : List Nat := []
   gEvicted : List Nat := []
   gSkipped : List Nat := []
+  gFirst : Nat := 0              -- the publisher's send number when its side of the connection was created
+  gHist : List Nat := []         -- send numbers of the history samples that were to be delivered then
 deriving Repr
 
 structure Pub where
@@ -255,15 +257,18 @@ def pubCreateConn (w : World) (p slot : Nat) (e : SubEntry) : World :=
   match getP w p with
   | none => w
   | some P =>
+    let bufferSize := match getC w p e.sid with | some c => c.cap | none => e.buffer
+    let cnt := min e.histReq bufferSize
+    let toDeliver := P.hist.drop (P.hist.length - cnt)
+    let gh := toDeliver.map fun ch => P.chunkSeq.getD ch 0
     let w := match getC w p e.sid with
-      | some c => setC w { c with sAtt := true }
+      | some c => setC w { c with sAtt := true, gFirst := P.seq, gHist := gh }
       | none => { w with conns := w.conns ++ [{ pid := p, sid := e.sid, cap := e.buffer,
-                                                 used := List.replicate P.n false, sAtt := true }] }
+                                                 used := List.replicate P.n false, sAtt := true,
+                                                 gFirst := P.seq, gHist := gh }] }
     let w := setP w p { P with conns := P.conns.set slot (some e.sid) }
     -- deliver_sample_history
-    let bufferSize := match getC w p e.sid with | some c => c.cap | none => 0
-    let cnt := min e.histReq bufferSize
-    deliverHistory w p e.sid (P.hist.drop (P.hist.length - cnt))
+    deliverHistory w p e.sid toDeliver
 
 /-- the `for_each` of `Publisher::force_update_connections`; returns the tagged slots -/
 def pubUpdateSlots (w : World) (p : Nat) : List (Option SubEntry) → Nat → List Nat → World × List Nat
@@ -622,7 +627,7 @@ def step (w : World) : Op → World × String
   | .cpub p ml =>
     if (getP w p).isSome then (w, "dup") else
     -- `Publisher::new`
-    let ml := clamp1 ml
+    -- `max_loaned_samples` is not clamped: with 0 every loan is refused
     let n := w.cfg.nChunks ml
     let P : Pub := { maxLoans := ml, n := n, free := List.range n, rc := List.replicate n 0,
                      conns := List.replicate w.cfg.maxSubs none, snapCtr := w.subReg.counter,
@@ -805,5 +810,20 @@ def step (w : World) : Op → World × String
       match getS w1 s with
       | none => (w1, "none")
       | some S => (w1, if anyHasData w1 s (SlotMap.items S.storage) then "true" else "false")
+
+/-! ### reachability -/
+
+/-- what the service builder guarantees about a created service -/
+def Cfg.Sane (c : Cfg) : Prop :=
+  1 ≤ c.maxPubs ∧ 1 ≤ c.maxSubs ∧ 1 ≤ c.bufMax ∧ 1 ≤ c.borrowMax ∧ (c.overflow = false → c.hist ≤ c.bufMax)
+
+instance (c : Cfg) : Decidable c.Sane := by unfold Cfg.Sane; exact inferInstance
+
+def run (w : World) (ops : List Op) : World := ops.foldl (fun w op => (step w op).1) w
+
+/-- the states an application can reach through API calls; a (fatal) panic ends the history -/
+inductive Reach (c : Cfg) : World → Prop
+  | init : Reach c (World.init c)
+  | step {w : World} (op : Op) : Reach c w → w.panicked = false → Reach c (step w op).1
 
 end Iox2.PubSub
